@@ -44,7 +44,7 @@ theorem goodKeep : Good (fun a b => b.prog = a.prog ∧ Keep a b) Act.noCleanup 
   clean := fun _ h => absurd h (by simp [Act.noCleanup])
 
 theorem Keep_completeAll (code : Int) (ids : List Nat) (s : Rpc) (hs : Safe s) : Keep s (s.completeAll code ids).1 :=
-  (goodKeep.completeAll code ids s hs (fun _ _ => trivial)).2
+  (goodKeep.completeAll code ids s hs (fun _ => trivial)).2
 
 /-! ### the deadline of one request, in milliseconds -/
 
@@ -319,7 +319,7 @@ theorem goodTStep : Good (fun a b => b.prog = a.prog ∧ TStep a b) (fun _ => Tr
   clean := fun s _ _ => ⟨rfl, rfl, fun h => by cases h⟩
 
 theorem TStep_completeAll (code : Int) (ids : List Nat) (s : Rpc) : TStep s (s.completeAll code ids).1 :=
-  (goodTStep.completeAll code ids s (progAll_true _) (fun _ _ => trivial)).2
+  (goodTStep.completeAll code ids s (progAll_true _) (fun _ => trivial)).2
 
 theorem TStep_tick (s : Rpc) : TStep s s.tick.1 := by
   by_cases hr : s.ring = []
